@@ -251,6 +251,7 @@ type RunOpts struct {
 	Net        *verifsimnet.Profile
 	Stalls     []*verifsim.StallRule
 	OnStep     func(w *World, site string) string
+	OnPark     func(w *World, g *verifsim.G)
 }
 
 // Outcome is what the simulator observed (independent of any oracle).
@@ -308,6 +309,9 @@ func RunSim(t *testing.T, o RunOpts, driver func(w *World)) (out Outcome) {
 			}
 			if o.OnStep != nil {
 				sim.OnStep = func(site string) string { return o.OnStep(w, site) }
+			}
+			if o.OnPark != nil {
+				sim.OnPark = func(g *verifsim.G) { o.OnPark(w, g) }
 			}
 			w.ClientNode = sim.NewNode("client", "client", "clienthost")
 			sim.Activate()
